@@ -96,6 +96,7 @@ def _tag_values_by_evaluation(ctx, fv, tag_keys: T.Sequence[str]) -> T.Optional[
                 return None
             for k, v in zip(tag_keys, got.split("|")):
                 out[k].add(v)
+                out.setdefault("@" + tag, {})[k] = v          # type: ignore[index]
     except (CannotFold, EvalError, TypeError, AttributeError, KeyError, ValueError, IndexError):
         return None
     return out
@@ -170,6 +171,14 @@ def kwargs_model(ctx, fv) -> T.Dict[str, T.Callable[[], rl.R]]:
         for k in tag_keys:
             model[k] = ("strs", sorted(evaluated[k]))
         block = []
+        # a final release carries no suffix: in `{BID}{pep440_tag}` / `{bid}{release}` anything rendered for `final` is read as
+        # part of the build number (or fails to match)
+        fin = evaluated.get("@final", {})          # type: ignore[call-overload]
+        for k in ("release", "pep440_tag"):
+            ctx.check("R1", fin.get(k) == "", f"v1 renderer: a final release renders an empty {{{k}}}",
+                      "v1version.format_version: a final release is rendered with a tag suffix",
+                      f"{{{k}}} is {fin.get(k)!r} for tag 'final': `v201801.0034` is written as `201801.34{fin.get(k)}` for {{pep440_version}}, which reads back as another build number",
+                      loc=fv.loc(), witness={"version": "v201801.0034", "pattern": "{pep440_version}"})
     try:
         if evaluated is not None:
             raise StopIteration
